@@ -115,7 +115,8 @@ def loose_limbs(rng, bits32, bound_bits, mode=None):
     """Raw limbs with each limb below 2^(w + bound_bits ... ) patterns.
     bound per limb: limit_i.  mode in {max, maxm1, random, mixed, alt}."""
     lay = limb_layout(bits32)
-    mode = mode or rng.choice(['max', 'maxm1', 'random', 'mixed', 'alt', 'one_hot_max', 'nominal_max', 'zero_mix'])
+    mode = mode or rng.choice(['max', 'maxm1', 'random', 'mixed', 'alt', 'one_hot_max', 'nominal_max', 'zero_mix',
+                               'near_max', 'near_nominal', 'small'])
     out = []
     for i, w in enumerate(lay):
         lim = bound_bits(i, w)  # exclusive upper bound as integer
@@ -134,6 +135,13 @@ def loose_limbs(rng, bits32, bound_bits, mode=None):
             x = lim - 1 if i == rng.randrange(len(lay)) else rng.randrange(1 << w)
         elif mode == 'nominal_max':
             x = (1 << w) - 1
+        elif mode == 'near_max':
+            # just below the bound with random low bits (products of such limbs have large low AND high halves)
+            x = max(0, lim - 1 - rng.randrange(1 << max(1, w - 12)))
+        elif mode == 'near_nominal':
+            x = min(lim - 1, (1 << w) - 1 - rng.randrange(1 << max(1, w - 12)))
+        elif mode == 'small':
+            x = min(lim - 1, rng.randrange(1 << max(1, w - 14)))
         else:
             x = rng.choice([0, lim - 1])
         out.append(x)
